@@ -4,19 +4,18 @@ EXTENDS MCBus
 P(once, async, filt, accept, body) ==
   [once |-> once, async |-> async, seq |-> FALSE, filt |-> filt, accept |-> accept, panics |-> FALSE, body |-> body]
 Plain == P(FALSE, FALSE, FALSE, {}, <<>>)
-c01FnType == [f \in {"f1", "f2", "g1"} |-> IF f = "g1" THEN "T2" ELSE "T1"]
 c01Profiles == {
   Plain,
   P(TRUE,  FALSE, FALSE, {}, <<>>),
   P(FALSE, TRUE,  FALSE, {}, <<>>),
   P(FALSE, FALSE, TRUE, {"a"}, <<>>),
   P(TRUE,  FALSE, TRUE, {"b"}, <<>>),
+  P(FALSE, FALSE, FALSE, {}, <<[op |-> "unsub", t |-> "T1", fn |-> "f0"]>>),
   P(FALSE, FALSE, FALSE, {}, <<[op |-> "unsub", t |-> "T1", fn |-> "f1"]>>),
-  P(FALSE, FALSE, FALSE, {}, <<[op |-> "unsub", t |-> "T1", fn |-> "f2"]>>),
   P(FALSE, FALSE, FALSE, {}, <<[op |-> "clear", t |-> "T1"]>>),
   P(FALSE, FALSE, FALSE, {}, <<[op |-> "clearall"]>>),
   P(TRUE,  FALSE, FALSE, {}, <<[op |-> "pub", t |-> "T1", val |-> "a", ctx |-> "bg"]>>),
-  P(FALSE, FALSE, FALSE, {}, <<[op |-> "sub", fn |-> "f2", pr |-> Plain]>>),
+  P(FALSE, FALSE, FALSE, {}, <<[op |-> "sub", t |-> "T1", fn |-> "f1", pr |-> Plain]>>),
   P(FALSE, TRUE,  FALSE, {}, <<[op |-> "count", t |-> "T1"]>>) }
 c01Cfgs == {[obs |-> FALSE, before |-> FALSE, beforeCtx |-> FALSE, after |-> FALSE, afterCtx |-> FALSE, panicH |-> FALSE, closer |-> FALSE]}
 =============================================================================
